@@ -470,7 +470,7 @@ func execSelectQueries(d *xdb, r *hx.Rng, t xtable) {
 	// a qualified sort key names a column of its table, never the alias of another one
 	for _, q := range []string{"SELECT a AS k, k AS c FROM t1 ORDER BY t1.k", "SELECT a AS k FROM t1 ORDER BY t1.k", "SELECT a AS k, k AS c FROM t1 ORDER BY k",
 		"SELECT a AS k, k AS c FROM t1 ORDER BY c", "SELECT a, k AS c FROM t1 ORDER BY t1.a"} {
-		d.query(q, "exact", "alias-capture")
+		d.query(q, "judged", "alias-capture") // (rows tied on the key come back in any order)
 	}
 	// exhaustive boolean shapes up to 4 predicates
 	for n := 1; n <= 4; n++ {
@@ -713,9 +713,10 @@ func execGroupKeyQueries(d *xdb, r *hx.Rng) {
 	d.query("SELECT avg(v) FROM big1 WHERE k = 0", "exact", "agg-big")
 	d.query("SELECT avg(v) FROM big1 WHERE k = 2", "exact", "agg-big")
 	// a qualified sort key or grouping column names a column of its table, never the alias of another one
-	for _, q := range []string{"SELECT n AS v, v AS w FROM g1 ORDER BY g1.v", "SELECT n AS v FROM g1 ORDER BY g1.v", "SELECT n AS v, count(*) FROM g1 GROUP BY g1.v",
+	d.query("SELECT n AS v, count(*) FROM g1 GROUP BY g1.v", "exact", "alias-capture")
+	for _, q := range []string{"SELECT n AS v, v AS w FROM g1 ORDER BY g1.v", "SELECT n AS v FROM g1 ORDER BY g1.v",
 		"SELECT x.n AS v, y.v FROM g1 x JOIN g1 y ON x.n = y.n ORDER BY x.v", "SELECT n AS v, v AS w FROM g1 ORDER BY v", "SELECT n AS v, v AS w FROM g1 ORDER BY w", "SELECT n, v AS w FROM g1 ORDER BY g1.n"} {
-		d.query(q, "exact", "alias-capture")
+		d.query(q, "judged", "alias-capture") // (rows tied on the key come back in any order)
 	}
 	// GROUP BY without an aggregate in the select list still groups: one row per distinct key
 	for _, gb := range [][]string{{"s1"}, {"n"}, {"s1", "s2"}, {"n", "v"}, {"s2", "n"}} {
